@@ -230,6 +230,7 @@ type SpecFunc struct {
 	Body   Expr
 	Pred   bool
 	Uninterpreted bool
+	Opaque bool // treated as a function symbol; the definition is unfolded for closed applications only
 	Text   string
 }
 
